@@ -37,6 +37,7 @@ func TestC17Helper(t *testing.T) {
 	}
 	dbs := map[string]*bolt.DB{}
 	var mu sync.Mutex
+	debug.SetGCPercent(-1) // a leaked descriptor must not be closed (and its lock released) by a finalizer
 	out := bufio.NewWriter(os.Stdout)
 	say := func(format string, args ...any) {
 		mu.Lock()
@@ -51,13 +52,14 @@ func TestC17Helper(t *testing.T) {
 			continue
 		}
 		switch f[0] {
-		case "open": // open <id> <rw|ro> <timeoutms> <path>
+		case "open": // open <id> <rw|ro> <timeoutms> <path> [bad]
 			id, mode, path := f[1], f[2], f[4]
 			var to int
 			fmt.Sscanf(f[3], "%d", &to)
+			bad := len(f) > 5 && f[5] == "bad"
 			go func() {
 				start := time.Now()
-				db, err := bolt.Open(path, 0600, &bolt.Options{ReadOnly: mode == "ro", Timeout: time.Duration(to) * time.Millisecond})
+				db, err := bolt.Open(path, 0600, c17Options(mode, to, bad))
 				ms := time.Since(start).Milliseconds()
 				switch {
 				case err == nil:
@@ -84,6 +86,16 @@ func TestC17Helper(t *testing.T) {
 			return
 		}
 	}
+}
+
+// c17Options: a "bad" attempt asks for an initial map size beyond the maximum, so Open fails AFTER it has
+// taken the file lock; such an attempt must release the lock again before it returns.
+func c17Options(mode string, timeoutMs int, bad bool) *bolt.Options {
+	o := &bolt.Options{ReadOnly: mode == "ro", Timeout: time.Duration(timeoutMs) * time.Millisecond}
+	if bad {
+		o.InitialMmapSize = 1 << 49
+	}
+	return o
 }
 
 type c17Helper struct {
@@ -136,11 +148,12 @@ const c17Patience = 90 * time.Second
 // (a) lock programs
 
 type c17Step struct {
-	Op      string `json:"op"`      // open close
-	Actor   string `json:"actor"`   // self helper
-	Mode    string `json:"mode"`    // rw ro
-	Timeout int    `json:"timeout"` // ms, 0 = none
-	Holder  int    `json:"holder"`  // close: index into the current holder list
+	Op      string `json:"op"`            // open close
+	Actor   string `json:"actor"`         // self helper
+	Mode    string `json:"mode"`          // rw ro
+	Timeout int    `json:"timeout"`       // ms, 0 = none
+	Holder  int    `json:"holder"`        // close: index into the current holder list
+	Bad     bool   `json:"bad,omitempty"` // the attempt fails after taking the lock (invalid initial map size)
 }
 
 type c17Holder struct {
@@ -159,6 +172,7 @@ type c17Res struct {
 }
 
 func c17LockProgram(steps []c17Step) (v *drv.Violation, conflicts int) {
+	defer debug.SetGCPercent(debug.SetGCPercent(-1)) // see TestC17Helper
 	dir := drv.ShmDir("c17")
 	defer removeAll(dir)
 	path := filepath.Join(dir, "db")
@@ -182,6 +196,7 @@ func c17LockProgram(steps []c17Step) (v *drv.Violation, conflicts int) {
 		}
 	}()
 	nextID := 0
+	var stash []string // result lines of the helper that arrived while waiting for something else
 	closeHolder := func(i int) *drv.Violation {
 		hd := holders[i]
 		holders = append(holders[:i], holders[i+1:]...)
@@ -192,15 +207,23 @@ func c17LockProgram(steps []c17Step) (v *drv.Violation, conflicts int) {
 			return nil
 		}
 		fmt.Fprintf(h.in, "close %s\n", hd.id)
-		select {
-		case l := <-h.lines:
-			if !strings.HasPrefix(l, "closed "+hd.id) {
-				return drv.Violf("harness: helper answered %q to close", l)
+		for {
+			select {
+			case l := <-h.lines:
+				if strings.HasPrefix(l, "res ") {
+					// a blocked open of the helper got the lock the moment it was released: its result can
+					// overtake the "closed" line; keep it for wait()
+					stash = append(stash, l)
+					continue
+				}
+				if !strings.HasPrefix(l, "closed "+hd.id) {
+					return drv.Violf("harness: helper answered %q to close", l)
+				}
+				return nil
+			case <-time.After(c17Patience):
+				return drv.Violf("helper process: Close did not return within the patience limit")
 			}
-		case <-time.After(c17Patience):
-			return drv.Violf("helper process: Close did not return within the patience limit")
 		}
-		return nil
 	}
 	wait := func(actor, id string, d time.Duration) (c17Res, bool) {
 		if actor == "self" {
@@ -211,8 +234,18 @@ func c17LockProgram(steps []c17Step) (v *drv.Violation, conflicts int) {
 				return c17Res{}, false
 			}
 		}
-		select {
-		case l, ok := <-h.lines:
+		var l string
+		ok := true
+		if len(stash) > 0 {
+			l, stash = stash[0], stash[1:]
+		} else {
+			select {
+			case l, ok = <-h.lines:
+			case <-time.After(d):
+				return c17Res{}, false
+			}
+		}
+		{
 			if !ok {
 				return c17Res{kind: "err", msg: "helper died"}, true
 			}
@@ -223,8 +256,6 @@ func c17LockProgram(steps []c17Step) (v *drv.Violation, conflicts int) {
 				return c17Res{id: id, kind: f[2], ms: ms, msg: strings.Join(f[4:], " ")}, true
 			}
 			return c17Res{kind: "err", msg: "unexpected helper line: " + l}, true
-		case <-time.After(d):
-			return c17Res{}, false
 		}
 	}
 	for si, st := range steps {
@@ -249,7 +280,7 @@ func c17LockProgram(steps []c17Step) (v *drv.Violation, conflicts int) {
 		if st.Actor == "self" {
 			go func(st c17Step) {
 				start := time.Now()
-				db, err := bolt.Open(path, 0600, &bolt.Options{ReadOnly: st.Mode == "ro", Timeout: time.Duration(st.Timeout) * time.Millisecond})
+				db, err := bolt.Open(path, 0600, c17Options(st.Mode, st.Timeout, st.Bad))
 				r := c17Res{id: id, ms: time.Since(start).Milliseconds(), db: db}
 				switch {
 				case err == nil:
@@ -262,16 +293,45 @@ func c17LockProgram(steps []c17Step) (v *drv.Violation, conflicts int) {
 				selfRes <- r
 			}(st)
 		} else {
-			fmt.Fprintf(h.in, "open %s %s %d %s\n", id, st.Mode, st.Timeout, path)
+			bad := ""
+			if st.Bad {
+				bad = " bad"
+			}
+			fmt.Fprintf(h.in, "open %s %s %d %s%s\n", id, st.Mode, st.Timeout, path, bad)
 		}
 		desc := fmt.Sprintf("step %d: %s open by %s (timeout %d ms) with holders %v", si, st.Mode, st.Actor, st.Timeout, holderDesc(holders))
+		if st.Bad {
+			desc = fmt.Sprintf("step %d: %s open by %s with an invalid initial map size (must fail and hold nothing; timeout %d ms) with holders %v", si, st.Mode, st.Actor, st.Timeout, holderDesc(holders))
+		}
+		// accept registers a successful open as holder, or checks that a bad attempt failed (and holds nothing)
+		accept := func(r c17Res) *drv.Violation {
+			if st.Bad {
+				if r.kind == "ok" {
+					if r.db != nil {
+						r.db.Close()
+					}
+					return drv.Violf("%s: the open succeeded", desc)
+				}
+				if r.kind != "err" {
+					return drv.Violf("%s: expected an error about the map size, got %s %s", desc, r.kind, r.msg)
+				}
+				return nil
+			}
+			if r.kind != "ok" {
+				return drv.Violf("%s: the open did not succeed (result %q %s)", desc, r.kind, r.msg)
+			}
+			holders = append(holders, c17Holder{id: id, actor: st.Actor, mode: st.Mode, db: r.db})
+			return nil
+		}
 		switch {
 		case len(conflicting) == 0:
 			r, got := wait(st.Actor, id, c17Patience)
-			if !got || r.kind != "ok" {
-				return drv.Violf("%s: no lock conflict, yet the open did not succeed promptly (result %q %s)", desc, r.kind, r.msg), conflicts
+			if !got {
+				return drv.Violf("%s: no lock conflict, yet the open did not return promptly", desc), conflicts
 			}
-			holders = append(holders, c17Holder{id: id, actor: st.Actor, mode: st.Mode, db: r.db})
+			if v := accept(r); v != nil {
+				return drv.Violf("%s (no lock conflict)", v.Msg), conflicts
+			}
 		case st.Timeout > 0:
 			conflicts++
 			r, got := wait(st.Actor, id, c17Patience)
@@ -302,10 +362,12 @@ func c17LockProgram(steps []c17Step) (v *drv.Violation, conflicts int) {
 				}
 			}
 			r, got := wait(st.Actor, id, c17Patience)
-			if !got || r.kind != "ok" {
-				return drv.Violf("%s: still not opened 10 s after every conflicting holder closed (closing must release the lock); result %q %s", desc, r.kind, r.msg), conflicts
+			if !got {
+				return drv.Violf("%s: has not returned although every conflicting holder closed (closing must release the lock)", desc), conflicts
 			}
-			holders = append(holders, c17Holder{id: id, actor: st.Actor, mode: st.Mode, db: r.db})
+			if v := accept(r); v != nil {
+				return drv.Violf("%s (after every conflicting holder closed)", v.Msg), conflicts
+			}
 		}
 	}
 	return nil, conflicts
@@ -334,14 +396,21 @@ func TestC17Locks(t *testing.T) {
 			steps = append(steps, c17Step{Op: "open",
 				Actor:   rapid.SampledFrom([]string{"self", "helper"}).Draw(rt, "actor"),
 				Mode:    rapid.SampledFrom([]string{"rw", "ro", "ro"}).Draw(rt, "mode"),
-				Timeout: rapid.SampledFrom([]int{0, 100, 100}).Draw(rt, "timeout")})
+				Timeout: rapid.SampledFrom([]int{0, 100, 100}).Draw(rt, "timeout"),
+				Bad:     rapid.IntRange(0, 4).Draw(rt, "bad") == 0})
 			opens++
 		}
 		v, conflicts := c17LockProgram(steps)
 		if v != nil {
 			failNoShrinkOrCase(rt, replayDoc{Property: "C17", Kind: "lock-program", Extra: mustJSON(steps)}, v)
 		}
-		col.Add(steps, conflicts > 0, map[string]int{"lock-program": 1, "conflict": conflicts})
+		nbad := 0
+		for _, st := range steps {
+			if st.Bad {
+				nbad++
+			}
+		}
+		col.Add(steps, conflicts > 0, map[string]int{"lock-program": 1, "conflict": conflicts, "failing-open-attempt": nbad})
 	})
 }
 
